@@ -28,7 +28,10 @@ impl VxValidator {
 //@include frag/c/sv_validate_counterparty_revocation.rs
 //@end
 //@fn vls-core/src/policy/simple_validator.rs :: impl Validator for SimpleValidator :: validate_channel_value mode=trusted
+//@include frag/c/sv_validate_channel_value.rs
 //@end
+    // the policy value named by that contract (the validator is an opaque `Arc<dyn Validator>` here)
+    pub uninterp spec fn vp_max_channel_size_sat(&self) -> u64;
     // phase-1 decoder (tx/tx.rs script templates): only the two values it returns are used, and the recomposition
     // equality below makes decoder errors fail closed
 //@fn vls-core/src/policy/simple_validator.rs :: impl Validator for SimpleValidator :: decode_commitment_tx mode=trusted
